@@ -75,7 +75,7 @@ func (x xfsEngine) Generate(rng *rand.Rand, prop string, thorough bool) *Plan {
 	p.Cfg.NKeys = len(keys)
 	cfg.NKeys = len(keys)
 	p.SetKeys(keys)
-	w := map[string]int{"put": 40, "del": 14, "get": 10, "geta": 4, "has": 3, "count": 2, "items": 3, "sync": 3, "compact": 5, "close": 4, "filesize": 1}
+	w := map[string]int{"put": 40, "del": 14, "get": 10, "geta": 4, "has": 3, "count": 2, "items": 3, "sync": 3, "compact": 5, "close": 4, "filesize": 1, "itemsc": 2}
 	switch x.focus {
 	case "C14":
 		w["get"], w["geta"], w["items"], w["compact"], w["close"] = 25, 10, 8, 8, 6
@@ -462,6 +462,53 @@ func (x xfsEngine) exec(t xfsTarget, p *Plan) (run *xfsRun) {
 				kv := []string{pr[8 : 8+kl], pr[8+kl:]}
 				if mv, ok := model.M[kv[0]]; !ok || string(mv) != kv[1] {
 					return violf("scan-mismatch", "op#%d: scan returned %s=%s, model has %s", i, clip([]byte(kv[0])), showVal([]byte(kv[1])), showVal(mv))
+				}
+			}
+		case "itemsc":
+			// a scan paused after op.Size items while Compact removes segments, then drained
+			var pairs []string
+			var err error
+			var cr pogreb.CompactionResult
+			if v = guard("Items across Compact", func() {
+				it := db.Items()
+				ran := false
+				for n := 0; n < len(model.M)+1000; n++ {
+					if n >= op.Size && !ran {
+						ran = true
+						if cr, err = db.Compact(); err != nil {
+							return
+						}
+					}
+					k, val, e := it.Next()
+					if e == pogreb.ErrIterationDone {
+						return
+					}
+					if e != nil {
+						err = e
+						return
+					}
+					pairs = append(pairs, fmt.Sprintf("%08d", len(k))+string(k)+string(val))
+				}
+				err = fmt.Errorf("scan does not terminate")
+			}); v != nil {
+				return v
+			}
+			if err != nil {
+				return violf("api-error", "op#%d items across compact: %v", i, err)
+			}
+			if cr.CompactedSegments > 0 {
+				run.probes["compaction_inside_scan"]++
+			}
+			sort.Strings(pairs)
+			tr("op#%d itemsc -> %d %016x %+v", i, len(pairs), fnvAdd(7, []byte(strings.Join(pairs, "\x01"))), cr)
+			if len(pairs) != len(model.M) {
+				return violf("scan-mismatch", "op#%d: a scan paused across a compaction returned %d items, model has %d keys", i, len(pairs), len(model.M))
+			}
+			for _, pr := range pairs {
+				kl := 0
+				fmt.Sscanf(pr[:8], "%d", &kl)
+				if mv, ok := model.M[pr[8:8+kl]]; !ok || string(mv) != pr[8+kl:] {
+					return violf("scan-mismatch", "op#%d: a scan paused across a compaction returned %s=%s, model has %s", i, clip([]byte(pr[8:8+kl])), showVal([]byte(pr[8+kl:])), showVal(mv))
 				}
 			}
 		case "sync":
